@@ -138,7 +138,7 @@ fn nth(len: usize, idx: u64) -> String {
 pub const REDUCED: [&str; 20] = ["1", ".", "e", "+", "-", "*", "/", "^", "%", "(", ")", "{", "}", ",", "m", "t", "o", "é", " ", "\u{3000}"];
 
 pub fn run_check(ctx: &Ctx) {
-    ctx.set_rule("all strings up to the stated length over a 40-symbol alphabet (digits, operators, letters, braces, multi-byte characters, Unicode blanks) are enumerated, plus random longer strings and a fixed family of inputs with one token of 2^16..2^17 bytes (blanks, digits, letters); oracle: tokens non-empty, contiguous, on char boundaries, covering the input, the unit parser's leaves (run first, on the same thread) are a prefix of the token sequence, and the root parse tree's leaves equal the token sequence (start, end, kind); non-trivial = at least two different token kinds; enumerated strings are distinct by construction");
+    ctx.set_rule("all strings up to the stated length over a 40-symbol alphabet (digits, operators, letters, braces, multi-byte characters, Unicode blanks) are enumerated, plus random longer strings and a fixed family of inputs with one token of 2^16..2^17 bytes (blanks, digits, letters) or with 2 000..65 000 small tokens; oracle: tokens non-empty, contiguous, on char boundaries, covering the input, the unit parser's leaves (run first, on the same thread) are a prefix of the token sequence, and the root parse tree's leaves equal the token sequence (start, end, kind); non-trivial = at least two different token kinds; enumerated strings are distinct by construction");
     let corpus: Vec<(String, StrCase)> = load_corpus("C12");
     let cases: Vec<StrCase> = corpus.into_iter().map(|c| c.1).collect();
     ctx.run_list("corpus", &cases, |c| check_str(&c.input, true), |c| to_json(c));
@@ -196,6 +196,12 @@ pub fn huge_token_inputs() -> Vec<HugeCase> {
         v.push(mk("", "0", n, "42 + 1"));
         v.push(mk("1 ", "a", n, " 2"));
         v.push(mk("(1 + 2)", " \t", n / 2 + 1, "* 3"));
+    }
+    // many small tokens instead of one huge one: the parser's look-ahead buffer and whatever it counts per token
+    for n in [1_000usize, 1_023, 1_024, 1_025, 1_200, 2_048, 4_095, 4_096, 4_097, 5_000, 16_385] {
+        v.push(mk("", "1 + ", n, "1"));
+        v.push(mk("", "2*", n, "2"));
+        v.push(mk("(", "1 m ,", n, ")"));
     }
     v
 }
